@@ -148,8 +148,26 @@ def rule_M8(ctx, rid='M8'):
               isinstance(st.targets[0], ast.Subscript) and
               isinstance(st.targets[0].value, ast.Attribute) and
               st.targets[0].value.attr == 'centers']
+    vec = False
+    if not stores:
+        # vectorised shape: all periodic columns at once, `obj.centers = <formula>` with 2-D
+        # arrays whose axis 0 runs over the points
+        stores = [st for st in walk_no_nested(f.node) if isinstance(st, ast.Assign) and
+                  isinstance(st.targets[0], ast.Attribute) and
+                  st.targets[0].attr == 'centers' and not (
+                      isinstance(st.value, ast.Call) and
+                      dotted(st.value.func) in ('np.zeros', 'np.empty', 'np.zeros_like'))]
+        vec = bool(stores)
     ctx.require(stores, 'PhaseShift.compute: store to centers[...] not found')
     st = stores[0]
+    axis_faults = []
+
+    def axis0(call):
+        """In the vectorised shape a reduction / sort / diff must run along axis 0."""
+        if not vec:
+            return True
+        ax = [k.value for k in call.keywords if k.arg == 'axis']
+        return bool(ax) and _const(ax[0]) == 0
     # single-definition locals of the function
     env, multi = {}, set()
     for s in walk_no_nested(f.node):
@@ -174,11 +192,56 @@ def rule_M8(ctx, rid='M8'):
         if isinstance(e, ast.Call) and dotted(e.func) in ('np.amax', 'np.max', 'max') and \
                 len(e.args) == 1:
             gap_exprs.append(('max', e.args[0]))
+            if not axis0(e):
+                axis_faults.append(('the maximum gap `%s`' % unparse(e), e))
             return 'g'
         if isinstance(e, ast.Call) and isinstance(e.func, ast.Attribute) and \
                 e.func.attr == 'max' and not e.args and dotted(e.func.value) not in ('np',):
             gap_exprs.append(('max', e.func.value))
+            if not axis0(e):
+                axis_faults.append(('the maximum gap `%s`' % unparse(e), e))
             return 'g'
+        if vec:
+            # x[argmax(G, axis=0), arange]  /  np.take_along_axis(x, I, axis=0)[0]
+            t = e
+            while isinstance(t, ast.Subscript) and not (
+                    isinstance(t.slice, ast.Tuple) and any(
+                        isinstance(c, ast.Call) for c in ast.walk(t.slice))):
+                if isinstance(t.value, ast.Call) and \
+                        dotted(t.value.func) == 'np.take_along_axis':
+                    t = t.value
+                    break
+                if isinstance(t.value, ast.Name) and not isinstance(t.slice, ast.Tuple):
+                    break
+                t = t.value
+            am = None
+            base = None
+            if isinstance(t, ast.Call) and dotted(t.func) == 'np.take_along_axis' and \
+                    len(t.args) >= 2:
+                base = t.args[0]
+                idx = t.args[1]
+                if not axis0(t):
+                    axis_faults.append(('the selection `%s`' % unparse(t)[:40], t))
+                seen = 0
+                while seen < 6:
+                    seen += 1
+                    if isinstance(idx, ast.Name) and idx.id in env:
+                        idx = env[idx.id]
+                    elif isinstance(idx, ast.Subscript):
+                        idx = idx.value
+                    else:
+                        break
+                if isinstance(idx, ast.Call) and dotted(idx.func) == 'np.argmax' and idx.args:
+                    am = idx
+            elif isinstance(t, ast.Subscript) and isinstance(t.slice, ast.Tuple) and \
+                    len(t.slice.elts) == 2 and isinstance(t.slice.elts[0], ast.Call) and \
+                    dotted(t.slice.elts[0].func) == 'np.argmax' and t.slice.elts[0].args:
+                base, am = t.value, t.slice.elts[0]
+            if am is not None:
+                if not axis0(am):
+                    axis_faults.append(('the position `%s`' % unparse(am), am))
+                gap_exprs.append(('argmax', am.args[0], base))
+                return 's'
         if isinstance(e, ast.Subscript) and isinstance(e.slice, ast.Call) and \
                 dotted(e.slice.func) == 'np.argmax' and len(e.slice.args) == 1:
             if unparse(e.value) == unparse(e.slice.args[0]):
@@ -199,6 +262,13 @@ def rule_M8(ctx, rid='M8'):
            'centre = (start of the largest gap + half its length + 1/2) mod 1' if okc else
            'centre is computed as %s%s: not the point opposite the midpoint of the largest gap'
            % (_fmt(form), ' mod 1' if k else ' (no reduction modulo 1)'))
+    if vec:
+        ctx.ob(rid, 'PhaseShift.compute:per-column-reductions', not axis_faults, f.where(st),
+               'with all periodic columns handled at once, maximum / argmax / selection run '
+               'along axis 0 (over the points of each column)' if not axis_faults else
+               '%s is not taken along axis 0: it mixes the periodic columns (e.g. the largest '
+               'gap over ALL columns instead of each column\'s own), so a column\'s centre is '
+               'not opposite its own largest gap' % axis_faults[0][0])
     gv = {unparse(g[1]) for g in gap_exprs}
     same_vec = len(gv) == 1
     ctx.ob(rid, 'PhaseShift.compute:argmax-and-max-of-same-vector', same_vec, f.where(st),
@@ -210,7 +280,8 @@ def rule_M8(ctx, rid='M8'):
         return 2
     xname = xs[0]
     xdef = env.get(xname.id) if isinstance(xname, ast.Name) else xname
-    oks = xdef is not None and _is_sorted_column(xdef)
+    oks = xdef is not None and _is_sorted_column(xdef) and (
+        not vec or (isinstance(xdef, ast.Call) and axis0(xdef)))
     ctx.ob(rid, 'PhaseShift.compute:coordinates-sorted', oks, f.where(st),
            'gaps are taken between neighbours of the sorted coordinates' if oks else
            'the coordinates `%s` the gaps are taken from are not sorted: differences of '
@@ -226,18 +297,33 @@ def rule_M8(ctx, rid='M8'):
 
     def gsym(e):
         if isinstance(e, ast.Subscript) and is_x(e.value):
-            i = _const(e.slice)
+            sl = e.slice
+            if isinstance(sl, ast.Tuple) and len(sl.elts) == 2 and \
+                    isinstance(sl.elts[1], ast.Slice) and sl.elts[1].lower is None and \
+                    sl.elts[1].upper is None:
+                sl = sl.elts[0]         # x[0, :]
+            i = _const(sl)
             if i == 0:
                 return 'a'
             if i == -1:
                 return 'b'
+            if isinstance(sl, ast.Slice) and sl.step is None:
+                lo = _const(sl.lower) if sl.lower is not None else None
+                hi = _const(sl.upper) if sl.upper is not None else None
+                if sl.lower is None and hi == 1:
+                    return 'a'          # x[:1]: the first row, kept two-dimensional
+                if lo == -1 and sl.upper is None:
+                    return 'b'          # x[-1:]
         return None
 
     wrap = None
     if isinstance(G, ast.Call) and dotted(G.func) == 'np.append' and len(G.args) >= 2 and \
             _is_diff_of(G.args[0], is_x):
         wrap = ('value', G.args[1])
-    elif isinstance(G, ast.Call) and dotted(G.func) in ('np.concatenate', 'np.hstack') and \
+        if not axis0(G) or not axis0(G.args[0]):
+            axis_faults.append(('the gap vector `%s`' % unparse(G)[:40], G))
+    elif isinstance(G, ast.Call) and dotted(G.func) in ('np.concatenate', 'np.hstack',
+                                                        'np.vstack') and \
             G.args and isinstance(G.args[0], (ast.List, ast.Tuple)) and \
             len(G.args[0].elts) == 2 and _is_diff_of(G.args[0].elts[0], is_x):
         w = G.args[0].elts[1]
@@ -318,4 +404,4 @@ def _is_sorted_column(e):
 
 def _is_diff_of(e, is_x):
     return isinstance(e, ast.Call) and dotted(e.func) == 'np.diff' and len(e.args) == 1 and \
-        not e.keywords and is_x(e.args[0])
+        all(k.arg == 'axis' and _const(k.value) == 0 for k in e.keywords) and is_x(e.args[0])
